@@ -340,7 +340,7 @@ impl<'tcx> Cx<'tcx> {
                         .f("trait_unsafe", J::Bool(tcx.trait_def(tr.def_id).safety.is_unsafe()))
                         .f("trait_auto", J::Bool(tcx.trait_is_auto(tr.def_id)));
                     for it in tcx.associated_items(tr.def_id).in_definition_order() {
-                        if it.is_fn() {
+                        if it.is_fn() && it.opt_name().is_some() {
                             if it.defaultness(tcx).has_value() {
                                 provided.push(J::s(it.name().to_string()));
                             } else {
@@ -359,6 +359,9 @@ impl<'tcx> Cx<'tcx> {
                 }
                 let mut items = Vec::new();
                 for it in tcx.associated_items(did).in_definition_order() {
+                    if it.opt_name().is_none() {
+                        continue;
+                    }
                     items.push(
                         J::obj()
                             .f("name", J::s(it.name().to_string()))
@@ -979,12 +982,12 @@ impl<'tcx> Cx<'tcx> {
     }
 }
 
-fn main() {
+fn main() -> std::process::ExitCode {
     let mut args: Vec<String> = std::env::args().collect();
     // RUSTC_WORKSPACE_WRAPPER invocation: argv[1] is the real rustc path
     if args.len() > 1 && (args[1].ends_with("rustc") || args[1].contains("/rustc")) {
         args.remove(1);
     }
     let mut cb = Exporter;
-    rustc_driver::catch_with_exit_code(move || rustc_driver::run_compiler(&args, &mut cb));
+    rustc_driver::catch_with_exit_code(move || rustc_driver::run_compiler(&args, &mut cb))
 }
